@@ -822,8 +822,17 @@ class Domain(AbstractRuleMatching):
             return False
         return self.match_domain(host)
 
+    @staticmethod
+    def _normalize_host(host: str) -> str:
+        # Bring the Host header into the form produced by validation().
+        name, sep, port = host.lower().rpartition(":")
+        if not (sep and port.isascii() and port.isdigit()):
+            return host.lower().rstrip(".")
+        name = name.rstrip(".")
+        return name if int(port) == 80 else f"{name}:{int(port)}"
+
     def match_domain(self, host: str) -> bool:
-        return host.lower() == self._domain
+        return self._normalize_host(host) == self._domain
 
     def get_info(self) -> _InfoDict:
         return {"domain": self._domain}
@@ -842,7 +851,7 @@ class MaskDomain(Domain):
         return self._mask.pattern
 
     def match_domain(self, host: str) -> bool:
-        return self._mask.fullmatch(host.lower()) is not None
+        return self._mask.fullmatch(self._normalize_host(host)) is not None
 
 
 class MatchedSubAppResource(PrefixedSubAppResource):
